@@ -9,8 +9,8 @@ CONSTANTS
   MixedTerm = FALSE
   Finding1 = FALSE
   Finding2 = TRUE
-  Finding3 = TRUE
-  Finding4 = TRUE
+  Finding3 = FALSE
+  Finding4 = FALSE
 INVARIANT TypeOK
 INVARIANT NothingBeforeTheEnd
 INVARIANT RejectedStoresNothing
